@@ -196,6 +196,11 @@ def p_conj(itp, name, args, kw, node, st):
     from . import charge as Q
     r.q = Q.q_neg(n.q)
     r.mirror = not n.mirror
+    if isinstance(v, Num) and v.seg is not None:
+        r.seg = list(v.seg)
+        r.segax = v.segax
+    if n.amap not in (None, 'bad'):
+        r.amap = [b[:8] + (not b[8],) for b in n.amap]
     if n.log is None and not n.zero:
         r.deg['g'] = dneg(n.deg['g'])
         r.deg['gy'] = dneg(n.deg['gy'])
@@ -1110,7 +1115,27 @@ def p_toeplitz(itp, name, args, kw, node, st):
     r.ex = None
     r.zero = False
     r.cplx = None if (c.cplx is None or (r_ is not None and r_.cplx is None)) else (c.cplx or (r_.cplx if r_ is not None else False))
+    r.amap = _toeplitz_map(args[0], args[1] if len(args) > 1 else None, 'toeplitz', n0, n1)
     return r
+
+
+def _toeplitz_map(c, r, kind, n0, n1):
+    """toeplitz(c, r)[i,k] = c[i-k] (i>=k) / r[k-i];  hankel(c, r)[i,k] = c[i+k] / r[i+k-len(c)+1]: one affine map of the
+    source iff first column and first/last row are one contiguous run of the same source"""
+    from . import segmap
+    if not (isinstance(c, Num) and isinstance(r, Num) and c.seg is not None and r.seg is not None):
+        return None
+    cs, rs = segmap.normalise(c.seg), segmap.normalise(r.seg)
+    if len(cs) != 1 or len(rs) != 1 or cs[0].src != rs[0].src or bool(c.mirror) != bool(r.mirror) or n0 is None or n1 is None:
+        return 'bad'
+    a, b = cs[0], rs[0]
+    one_c = a.n == Aff(1)
+    one_r = b.n == Aff(1)
+    if kind == 'toeplitz':
+        ok = (one_c or a.stride == 1) and (one_r or b.stride == -1) and a.start == b.start
+        return [(Aff(0), n0, Aff(0), n1, F(1), F(-1), a.start, a.src, bool(c.mirror))] if ok else 'bad'
+    ok = (one_c or a.stride == 1) and (one_r or b.stride == 1) and b.start == a.start + a.n - 1
+    return [(Aff(0), n0, Aff(0), n1, F(1), F(1), a.start, a.src, bool(c.mirror))] if ok else 'bad'
 
 
 @prim('numpy.kaiser', 'numpy.hamming', 'numpy.hanning', 'numpy.bartlett', 'numpy.blackman', 'scipy.signal.chebwin',
@@ -1198,4 +1223,5 @@ def p_hankel(itp, name, args, kw, node, st):
     r.ex = None
     r.zero = False
     r.q = None
+    r.amap = _toeplitz_map(args[0], args[1] if len(args) > 1 else None, 'hankel', n0, n1)
     return r
